@@ -188,6 +188,7 @@ func c06(c *Ctx) {
 		}
 	}
 	r.Floor("R6.4", n64, 4)
+	c.checkNoReaderGlobals()
 }
 
 func (c *Ctx) checkMustDrain(fn *ssa.Function) {
@@ -201,47 +202,22 @@ func (c *Ctx) checkMustDrain(fn *ssa.Function) {
 	}
 	var bad []string
 	npaths, nsucc := 0, 0
-	var drains []*ssa.Call
-	complete := core.EnumPaths(fn, 2, 100000, func(path []*ssa.BasicBlock) {
-		npaths++
-		var drained []ssa.Value // nodes whose AsLargeBytes reader was fully drained
-		for _, b := range path {
-			for _, ins := range b.Instrs {
-				switch x := ins.(type) {
-				case *ssa.Call:
-					var src ssa.Value
-					if core.IsCallTo(x, "io", "Copy") && len(x.Call.Args) == 2 {
-						src = x.Call.Args[1]
-					} else if core.IsCallTo(x, "io", "ReadAll") && len(x.Call.Args) == 1 {
-						src = x.Call.Args[0]
-					}
-					if src == nil {
-						continue
-					}
-					if node := readerOrigin(src); node != nil {
-						drained = append(drained, stripAssert(node))
-						drains = append(drains, x)
-					}
-				case *ssa.Return:
-					rr := core.ResolvedResults(x)
-					if !core.IsNilConst(rr[errIdx]) {
-						continue
-					}
-					nsucc++
-					node := stripAssert(rr[0])
-					okd := false
-					for _, d := range drained {
-						if d == node {
-							okd = true
-						}
-					}
-					if !okd {
-						bad = append(bad, fmt.Sprintf("nil-error return at %s is reachable without draining the reader of the returned node", c.P.Pos(x.Pos())))
-					}
-				}
+	complete, drains := c.drainPaths(fn, 0, func(ret *ssa.Return, rr []ssa.Value, drained []ssa.Value, failing bool) {
+		if failing {
+			return
+		}
+		nsucc++
+		node := stripAssert(rr[0])
+		okd := false
+		for _, d := range drained {
+			if d == node {
+				okd = true
 			}
 		}
-	})
+		if !okd {
+			bad = append(bad, fmt.Sprintf("return at %s can report success without draining the reader of the returned node", c.P.Pos(ret.Pos())))
+		}
+	}, &npaths)
 	if !complete {
 		r.Undecided("R6.2", key, pos, "path enumeration exceeded its bound")
 		return
@@ -263,6 +239,106 @@ func (c *Ctx) checkMustDrain(fn *ssa.Function) {
 		}
 		r.Check(len(probs) == 0, "R6.2", key+"/drain-error", c.P.Pos(d.Pos()), "the drain's error reaches the caller", "a failed drain is not reported: "+uniqJoin(ss))
 	}
+}
+
+// drainPaths enumerates the paths of fn; for each return it reports the nodes whose AsLargeBytes() reader has been drained
+// to the end (io.Copy / io.ReadAll, directly or inside a repository helper that drains one of its parameters on every
+// successful path) and whether the return certainly carries a non-nil error on that path.
+func (c *Ctx) drainPaths(fn *ssa.Function, depth int, visit func(ret *ssa.Return, rr []ssa.Value, drained []ssa.Value, failing bool), npaths *int) (bool, []*ssa.Call) {
+	errIdx := core.ErrResultIndex(fn.Signature)
+	var drains []*ssa.Call
+	complete := core.EnumPaths(fn, 2, 100000, func(path []*ssa.BasicBlock) {
+		*npaths++
+		var drained []ssa.Value
+		for i, b := range path {
+			for _, ins := range b.Instrs {
+				switch x := ins.(type) {
+				case *ssa.Call:
+					var src ssa.Value
+					if core.IsCallTo(x, "io", "Copy") && len(x.Call.Args) == 2 {
+						src = x.Call.Args[1]
+					} else if core.IsCallTo(x, "io", "ReadAll") && len(x.Call.Args) == 1 {
+						src = x.Call.Args[0]
+					}
+					if src != nil {
+						if node := readerOrigin(src); node != nil {
+							drained = append(drained, stripAssert(node))
+							drains = append(drains, x)
+						}
+						continue
+					}
+					if h := x.Call.StaticCallee(); h != nil && depth < 2 && h != fn {
+						if _, isRepo := c.P.PkgOf(h); isRepo && len(h.Blocks) > 0 {
+							for _, pi := range c.drainSummary(h, depth+1) {
+								if pi < len(x.Call.Args) {
+									drained = append(drained, stripAssert(x.Call.Args[pi]))
+									drains = append(drains, x)
+								}
+							}
+						}
+					}
+				case *ssa.Return:
+					rr := core.ResolvedResults(x)
+					failing := errIdx >= 0 && core.ErrKnownNonNil(rr[errIdx], core.PathNonNil(path, i))
+					visit(x, rr, drained, failing)
+				}
+			}
+		}
+	})
+	return complete, drains
+}
+
+// drainSummary: indices of the parameters of helper h whose AsLargeBytes() reader is drained on every path on which h may
+// return a nil error (and whose drain error h propagates).
+func (c *Ctx) drainSummary(h *ssa.Function, depth int) []int {
+	if c.drainMemo == nil {
+		c.drainMemo = map[*ssa.Function][]int{}
+	}
+	if v, ok := c.drainMemo[h]; ok {
+		return v
+	}
+	c.drainMemo[h] = nil
+	if core.ErrResultIndex(h.Signature) < 0 {
+		return nil
+	}
+	cand := map[int]bool{}
+	for i := range h.Params {
+		cand[i] = true
+	}
+	n, nsucc := 0, 0
+	complete, drains := c.drainPaths(h, depth, func(ret *ssa.Return, rr []ssa.Value, drained []ssa.Value, failing bool) {
+		if failing {
+			return
+		}
+		nsucc++
+		for i, p := range h.Params {
+			found := false
+			for _, d := range drained {
+				if d == ssa.Value(p) {
+					found = true
+				}
+			}
+			if !found {
+				delete(cand, i)
+			}
+		}
+	}, &n)
+	if !complete || nsucc == 0 {
+		return nil
+	}
+	for _, d := range drains {
+		if probs, _, _ := core.CheckErrPropagated(h, d); len(probs) > 0 {
+			return nil
+		}
+	}
+	var out []int
+	for i := range h.Params {
+		if cand[i] {
+			out = append(out, i)
+		}
+	}
+	c.drainMemo[h] = out
+	return out
 }
 
 // readerOrigin: src is (an extract of) X.AsLargeBytes(); returns X.
@@ -524,35 +600,107 @@ func (c *Ctx) checkWalkComplete(W *ssa.Function, fetch map[*ssa.Function]bool) {
 	if link == nil {
 		bad = append(bad, "the loop does not take the next link from the links iterator")
 	}
-	// (c)/(d) value test and the non-value branch
+	// (c)/(d) value test and the non-value branch. The per-link step may live in the loop body or in a helper method that
+	// the loop hands the link to; in the latter case the helper is analysed as the loop body.
 	pred, _ := newDischarger(c).findLinkPredicate()
-	var valueIf *ssa.If
-	var isValue ssa.Value
-	for b := range inLoop {
-		iff2 := core.BlockIf(b)
-		if iff2 == nil {
-			continue
+	findValueIf := func(region map[*ssa.BasicBlock]bool, lnk ssa.Value) *ssa.If {
+		var found *ssa.If
+		for b := range region {
+			iff2 := core.BlockIf(b)
+			if iff2 == nil {
+				continue
+			}
+			ex, ok := iff2.Cond.(*ssa.Extract)
+			if !ok || ex.Index != 0 {
+				continue
+			}
+			call, ok := ex.Tuple.(*ssa.Call)
+			if !ok || pred == nil || call.Call.StaticCallee() != pred {
+				continue
+			}
+			if lnk != nil && call.Call.Args[0] != lnk {
+				continue
+			}
+			if found == nil || iff2.Pos() < found.Pos() {
+				found = iff2
+			}
 		}
-		ex, ok := iff2.Cond.(*ssa.Extract)
-		if !ok || ex.Index != 0 {
-			continue
+		return found
+	}
+	stepFn, stepLink, region := W, link, inLoop
+	var stepCall *ssa.Call
+	valueIf := findValueIf(inLoop, link)
+	if valueIf == nil && link != nil {
+		reach := c.G.ReachersOf(fetch)
+		var cands []*ssa.Call
+		for b := range inLoop {
+			for _, ins := range b.Instrs {
+				call, ok := ins.(*ssa.Call)
+				if !ok {
+					continue
+				}
+				h := call.Call.StaticCallee()
+				if h == nil || h == pred || h == W || !reach[h] || len(h.Blocks) == 0 || fetch[h] {
+					continue
+				}
+				if rel, isRepo := c.P.PkgOf(h); !isRepo || rel != "hamt" {
+					continue
+				}
+				cands = append(cands, call)
+			}
 		}
-		call, ok := ex.Tuple.(*ssa.Call)
-		if !ok || pred == nil || call.Call.StaticCallee() != pred {
-			continue
+		sort.Slice(cands, func(i, j int) bool { return cands[i].Pos() < cands[j].Pos() })
+		for _, call := range cands {
+			h := call.Call.StaticCallee()
+			for i, a := range call.Call.Args {
+				if a != link || i >= len(h.Params) {
+					continue
+				}
+				hregion := map[*ssa.BasicBlock]bool{}
+				for _, hb := range h.Blocks {
+					hregion[hb] = true
+				}
+				if vi := findValueIf(hregion, h.Params[i]); vi != nil && stepCall == nil {
+					stepFn, stepLink, region, stepCall, valueIf = h, h.Params[i], hregion, call, vi
+				}
+			}
 		}
-		if link != nil && call.Call.Args[0] != link {
-			continue
+	}
+	stepErrIdx := core.ErrResultIndex(stepFn.Signature)
+	// isEnd: the point where one link's step is over — the loop header (inline step) or a return of the helper that can
+	// report success
+	isEnd := func(b *ssa.BasicBlock) bool {
+		if stepFn == W {
+			return b == header
 		}
-		valueIf, isValue = iff2, ex
+		if len(b.Instrs) == 0 {
+			return false
+		}
+		ret, ok := b.Instrs[len(b.Instrs)-1].(*ssa.Return)
+		if !ok || stepErrIdx < 0 {
+			return false
+		}
+		ev := core.ResolvedResults(ret)[stepErrIdx]
+		if core.ErrKnownNonNil(ev, nil) {
+			return false
+		}
+		if core.GuardedBy(b, func(cond ssa.Value) (bool, bool) {
+			x, trueMeansNil, ok := core.NilCmp(cond)
+			if !ok || x != ev {
+				return false, false
+			}
+			return !trueMeansNil, true
+		}) {
+			return false
+		}
+		return true
 	}
 	if valueIf == nil {
 		bad = append(bad, "the loop does not classify each link with the value-link predicate")
 	} else {
 		notValue := valueIf.Block().Succs[1]
-		// every path from the not-value edge back to the header passes loader(link) and W(child)
 		var loadCall, recCall *ssa.Call
-		for b := range inLoop {
+		for b := range region {
 			for _, ins := range b.Instrs {
 				call, ok := ins.(*ssa.Call)
 				if !ok {
@@ -562,19 +710,23 @@ func (c *Ctx) checkWalkComplete(W *ssa.Function, fetch map[*ssa.Function]bool) {
 				if f == nil {
 					continue
 				}
-				if fetch[f] && len(call.Call.Args) >= 2 && call.Call.Args[1] == link {
-					loadCall = call
+				if fetch[f] && len(call.Call.Args) >= 2 && call.Call.Args[1] == stepLink {
+					if loadCall == nil || call.Pos() < loadCall.Pos() {
+						loadCall = call
+					}
 				}
 			}
 		}
-		for b := range inLoop {
+		for b := range region {
 			for _, ins := range b.Instrs {
 				call, ok := ins.(*ssa.Call)
 				if !ok || loadCall == nil {
 					continue
 				}
 				if call.Call.StaticCallee() == W && len(call.Call.Args) > 0 && call.Call.Args[0] == ssa.Value(extractOf(loadCall, 0)) {
-					recCall = call
+					if recCall == nil || call.Pos() < recCall.Pos() {
+						recCall = call
+					}
 				}
 			}
 		}
@@ -584,21 +736,17 @@ func (c *Ctx) checkWalkComplete(W *ssa.Function, fetch map[*ssa.Function]bool) {
 			if !core.EdgeDominates(valueIf.Block(), notValue, loadCall.Block()) {
 				bad = append(bad, fmt.Sprintf("the load at %s is not confined to non-value links (entry blocks could be fetched)", c.P.Pos(loadCall.Pos())))
 			}
-			passes := func(call *ssa.Call) bool {
-				body := map[*ssa.BasicBlock]bool{}
-				for b := range inLoop {
-					body[b] = true
-				}
-				// search a path notValue -> header avoiding call's block
+			passes := func(from *ssa.BasicBlock, call *ssa.Call, reg map[*ssa.BasicBlock]bool, end func(*ssa.BasicBlock) bool) bool {
+				// search a path from -> end avoiding call's block
 				seen := map[*ssa.BasicBlock]bool{}
-				stack := []*ssa.BasicBlock{notValue}
+				stack := []*ssa.BasicBlock{from}
 				for len(stack) > 0 {
 					x := stack[len(stack)-1]
 					stack = stack[:len(stack)-1]
-					if x == call.Block() || seen[x] || !body[x] {
+					if x == call.Block() || seen[x] || !reg[x] {
 						continue
 					}
-					if x == header {
+					if end(x) {
 						return false
 					}
 					seen[x] = true
@@ -606,27 +754,35 @@ func (c *Ctx) checkWalkComplete(W *ssa.Function, fetch map[*ssa.Function]bool) {
 				}
 				return true
 			}
-			if !passes(loadCall) {
+			if !passes(notValue, loadCall, region, isEnd) {
 				bad = append(bad, "some non-value link is skipped without being loaded")
 			}
 			if recCall == nil {
 				bad = append(bad, "the loaded child is not walked recursively")
-			} else if !passes(recCall) {
+			} else if !passes(notValue, recCall, region, isEnd) {
 				bad = append(bad, "some loaded child is not walked before the next link")
 			}
 			for _, call := range []*ssa.Call{loadCall, recCall} {
 				if call == nil {
 					continue
 				}
-				probs, _, _ := core.CheckErrPropagated(W, call)
+				probs, _, _ := core.CheckErrPropagated(stepFn, call)
 				for _, p := range probs {
 					bad = append(bad, fmt.Sprintf("error of %s not propagated: %s [return at %s]", calleeShort(call), p.What, c.P.Pos(p.Pos)))
 				}
 			}
+			if stepCall != nil {
+				// the loop hands every link to the step helper and reports its error
+				if !passes(bodyEntry, stepCall, inLoop, func(b *ssa.BasicBlock) bool { return b == header }) {
+					bad = append(bad, fmt.Sprintf("some link is not handed to %s before the next one is taken", calleeShort(stepCall)))
+				}
+				probs, _, _ := core.CheckErrPropagated(W, stepCall)
+				for _, p := range probs {
+					bad = append(bad, fmt.Sprintf("error of %s not propagated: %s [return at %s]", calleeShort(stepCall), p.What, c.P.Pos(p.Pos)))
+				}
+			}
 		}
-		_ = isValue
 	}
-	_ = bodyEntry
 	r.Check(len(bad) == 0, "R6.3", key, pos, "walks the shard's links to exhaustion, loads and recurses into every non-value link in the same iteration, propagates errors, loads nothing for value links, memoises only after the loop", uniqJoin(bad))
 }
 
@@ -669,6 +825,11 @@ func (c *Ctx) memoFieldViaGetter(W *ssa.Function, v ssa.Value) *types.Var {
 		}
 		break
 	}
+	ridx := 0
+	if ex, isEx := v.(*ssa.Extract); isEx {
+		// comma-ok getter: (value, known bool)
+		v, ridx = ex.Tuple, ex.Index
+	}
 	call, ok := v.(*ssa.Call)
 	if !ok {
 		return nil
@@ -679,11 +840,25 @@ func (c *Ctx) memoFieldViaGetter(W *ssa.Function, v ssa.Value) *types.Var {
 	}
 	var field *types.Var
 	for _, ret := range core.Returns(g) {
-		fv := c.memoFieldOf(g, core.ResolvedResults(ret)[0])
+		fv := c.memoFieldOf(g, core.ResolvedResults(ret)[ridx])
 		if fv == nil || (field != nil && fv != field) {
 			return nil
 		}
 		field = fv
 	}
 	return field
+}
+
+// checkNoReaderGlobals implements R6.5: nothing outside the nodes remembers blocks.
+func (c *Ctx) checkNoReaderGlobals() {
+	r := c.R
+	r.Rule("R6.5", "no process-wide memory of loaded blocks: no package-level variable of the reader packages is written outside package initialisation, directly or through a repository function that writes through a parameter it is handed to — every preload and every read requests its blocks from the link system it was given (a package-level cache would satisfy a later preload without a fetch, or serve a block from another store)")
+	n := 0
+	for _, m := range c.G.GlobalMutations(core.ReaderPkgs) {
+		n++
+		r.Violate("R6.5", fmt.Sprintf("%s/global-state:%s", core.FuncName(m.Fn), m.Global.Name()), c.P.Pos(m.Ins.Pos()), m.What+" to package variable "+m.Global.Name()+" outside init: blocks remembered there are not fetched again")
+	}
+	if n == 0 {
+		r.OK("R6.5", "reader-packages/no-global-state", "-", "no package-level variable of the reader packages is written outside init")
+	}
 }
